@@ -275,13 +275,16 @@ pub struct RunCfg {
     /// of the check, however long the configured builder was kept around
     #[serde(default)]
     pub spawn_delay_ms: u64,
+    /// wait for the workers with `join_and_report` (a reporter with a 1 ms delay) instead of `join`
+    #[serde(default)]
+    pub report_join: bool,
 }
 impl RunCfg {
     pub fn new(model: ModelSpec, strategy: &str, threads: usize) -> RunCfg {
         RunCfg {
             model, strategy: strategy.into(), threads, finish_when: FwSpec::all(), target_state_count: None,
             target_max_depth: None, timeout_ms: None, perturb: 0, sim_seed: 0, chooser: "uniform".into(), script: vec![],
-            record: true, panic_seed: 0, closure_cap: 2_000_000, watchdog_ms: 0, spawn_delay_ms: 0,
+            record: true, panic_seed: 0, closure_cap: 2_000_000, watchdog_ms: 0, spawn_delay_ms: 0, report_join: false,
         }
     }
 }
@@ -560,11 +563,19 @@ pub fn run_child(cfg: &RunCfg) -> RunOut {
         (c.unique_state_count(), c.state_count(), c.max_depth(), d, c.is_done(), bad)
     }
 
+    struct QuietReporter;
+    impl<M: Model> stateright::report::Reporter<M> for QuietReporter {
+        fn report_checking(&mut self, _: stateright::report::ReportData) {}
+        fn report_discoveries(&mut self, _: std::collections::BTreeMap<&'static str, stateright::report::ReportDiscovery<M>>)
+        where M::Action: std::fmt::Debug, M::State: std::fmt::Debug + std::hash::Hash {}
+        fn delay(&self) -> Duration { Duration::from_millis(1) }
+    }
+    let rj = cfg.report_join;
     let strategy = cfg.strategy.clone();
     let (seed, chooser, script) = (cfg.sim_seed, cfg.chooser.clone(), cfg.script.clone());
     let r: Result<Fin, ()> = std::panic::catch_unwind(std::panic::AssertUnwindSafe(move || match strategy.as_str() {
-        "bfs" => fin_of(&b.spawn_bfs().join(), fin_sim),
-        "dfs" => fin_of(&b.spawn_dfs().join(), fin_sim),
+        "bfs" => if rj { fin_of(&b.spawn_bfs().join_and_report(&mut QuietReporter), fin_sim) } else { fin_of(&b.spawn_bfs().join(), fin_sim) },
+        "dfs" => if rj { fin_of(&b.spawn_dfs().join_and_report(&mut QuietReporter), fin_sim) } else { fin_of(&b.spawn_dfs().join(), fin_sim) },
         "ondemand" => {
             let c = b.spawn_on_demand();
             c.run_to_completion();
